@@ -193,4 +193,20 @@ theorem thermo_decodes (bg : List Nat) (d : ThermoState) (hbg : 92 ≤ bg.length
     exact key b hb'.2 hb'.1)]
   cases d.on <;> cases d.swing <;> rfl
 
+/-! ### non-vacuity: concrete replies meet every hypothesis, and the conclusions compute -/
+
+def demoState : State1 := { on := true, power := 2600, timeLeft := 3599, timeOn := 1, autoShutdown := 86399 }
+def demoThermo : ThermoState := { on := false, mode := 5, fan := 0, swing := true, tempTenths := 65535, target := 30, remote := [68, 76, 75, 49] }
+example : demoState.wf := by unfold State1.wf; decide
+example : (1 ≤ demoThermo.mode ∧ demoThermo.mode ≤ 5) ∧ demoThermo.fan < 4 ∧ demoThermo.tempTenths < 65536 ∧ demoThermo.target < 256 ∧
+    demoThermo.remote.length ≤ 8 ∧ ∀ b ∈ demoThermo.remote, 1 ≤ b ∧ b < 128 := by decide
+example : parseState (encodeState1 (List.replicate 124 0xa5) demoState) = .ok
+    { state := "ON", timeLeft := cs!"00:59:59", timeOn := cs!"00:00:01", autoShutdown := cs!"23:59:59", power := 2600, ampsTenths := 118 } := by
+  decide +kernel
+example : parseShutter (encodeShutter (List.replicate 95 0xa5) { position := 255, direction := 1 }) =
+    .ok { position := 255, direction := "SHUTTER_UP" } := by decide +kernel
+example : parseThermo (encodeThermo (List.replicate 100 0xa5) demoThermo) = .ok
+    { state := "OFF", mode := "HEAT", fan := "AUTO", tempTenths := 65535, target := 30, swing := "ON", remoteId := cs!"DLK1" } := by
+  decide +kernel
+
 end Props.C08
